@@ -169,6 +169,8 @@ def gen_case(rng, cid, kind):
         chunks = [stream[a:b] for a, b in zip([0] + cuts, cuts + [len(stream)])] if stream else []
         if dgram and oneshot and rng.random() < 0.5:
             chunks.append([])              # zero-length datagram: the one-shot "close"
+        elif dgram and not oneshot and rng.random() < 0.35:
+            chunks.insert(rng.randint(0, len(chunks)), [])     # ... which a stream that is not one-shot just skips
         d = (lambda hi: 0) if tight else (lambda hi: rng.choice([0, 0, rng.randint(1, hi)]))
         writers.append({"open_delay_us": d(2000), "chunks": chunks, "delays_us": [d(1500) for _ in chunks],
                         "close_delay_us": d(1000)})
